@@ -1,13 +1,16 @@
 From Coq Require Import Arith NArith Bool Lia List.
-Require Import Canon SemTk TableProto BddBase BddIte Glue.
+Require Import Canon SemTk TableProto BddBase BddIte BddEval Glue Hashes Machine CoqEval.
 Import ListNotations.
 Local Open Scope N_scope.
 
-(* The pinned commit's apply_ite: identical to the model's `ite` except for the shortcut ite(F,0,F) => F *)
+(* Faithful models of the PINNED commit's (8fe5657) apply_ite and ite_constant, which differ from the repaired code
+   modelled in BddBase.v in exactly the places marked below, with witnesses that the pinned code violates C02 / C12.
+   The witnesses were replayed on the real crate (corpus/bdd/defect-*.hist) and the crate was repaired by the `fix:`
+   commits 8410430 and e99e98a; these files stay as the record of what the theorems excluded. *)
 Section P.
   Context {SO : StoreOps}.
-  Fixpoint ite_pinned (fuel : nat) (s : st) (f g h : ref) : option (st * ref) :=
-    match fuel with O => None | S fuel =>
+  (* pinned apply_ite: identical to the model's `ite` except for the shortcut ite(F,0,F) => F *)
+  Definition ite_pinned (fuel : nat) (s : st) (f g h : ref) : option (st * ref) :=
     if is_one f then Some (s, g) else
     if is_zero f then Some (s, h) else
     if ref_eqb g h then Some (s, g) else
@@ -17,27 +20,103 @@ Section P.
     if ref_eqb g f && is_one h then Some (s, one) else
     if ref_eqb g (rneg f) && is_zero h then Some (s, zero) else
     if is_zero g && ref_eqb h f then Some (s, f) (* <- pinned: "ite(F,0,F) => F" *) else
-    ite fuel s f g h
+    ite fuel s f g h.
+
+  (* pinned ite_constant; None = out of fuel, Some (inl o) = returned o, Some (inr tt) = assertion failure (panic) *)
+  Fixpoint itec_pinned (fuel : nat) (s : st) (f g h : ref) : option (option bool + unit) :=
+    match fuel with O => None | S fuel =>
+    if is_one f then Some (inl (maybe_constant g)) else
+    if is_zero f then Some (inl (maybe_constant h)) else
+    if ref_eqb g h then Some (inl (maybe_constant g)) else
+    if is_one g && is_zero h then Some (inl None) else
+    if is_zero g && is_one h then Some (inl None) else
+    if is_one g && ref_eqb h (rneg f) then Some (inl (Some true)) else
+    if ref_eqb g f && is_one h then Some (inl (Some true)) else
+    if ref_eqb g (rneg f) && is_zero h then Some (inl (Some false)) else
+    if is_zero g && ref_eqb h f then Some (inl None) (* <- pinned: answers None for the constant 0 *) else
+    match cget s (KIte f g h) with
+    | Some res => if is_term res then Some (inr tt) (* <- pinned: assert!(!is_terminal(res)) *) else Some (inl None)
+    | None =>
+      let i := top s f in let j := top s g in let k := top s h in
+      let m := i in let m := if j =? 0 then m else N.min m j in let m := if k =? 0 then m else N.min m k in
+      let '(f0, f1) := top_cofactors s f m in
+      let '(g0, g1) := top_cofactors s g m in
+      let '(h0, h1) := top_cofactors s h m in
+      match itec_pinned fuel s f1 g1 h1 with
+      | None => None
+      | Some (inr tt) => Some (inr tt)
+      | Some (inl None) => Some (inl None)
+      | Some (inl (Some t)) =>
+        match itec_pinned fuel s f0 g0 h0 with
+        | None => None
+        | Some (inr tt) => Some (inr tt)
+        | Some (inl e) => if obool_eqb e (Some true) (* <- pinned: `e != Some(true)` *) then Some (inl (Some t)) else Some (inl None)
+        end
+      end
+    end
     end.
 End P.
 
-(* faithful run on the concrete manager: x1 := var 1; r := ite_pinned(x1, 0, x1) *)
-Definition pinned_run : option (N * bool) :=
-  match run nhash khash 100 (init 65535 65535 1048576, []) [HVar 1] with
-  | Some (s, [Some x1]) =>
-    match @ite_pinned (concrete_ops nhash khash) 100 s x1 zero x1 with Some (_, r) => Some (idx r, neg r) | None => None end
+Definition cfg_ops := concrete_ops nhash khash.
+Definition run_default (h : list hop) := @run nhash khash memo_ref memo_dm memo_nref memo_refN 200 (init 65535 65535 65535 1048576, []) h.
+
+(* ---- C02: apply_ite(x1, 0, x1) returns x1 at the pinned commit, the function is the constant 0 ---- *)
+Definition pinned_ite_run : option (N * bool) :=
+  match run_default [HVar 1] with
+  | Some ((m, [Some x1]), _) =>
+    match @ite_pinned cfg_ops 100 (core m) x1 zero x1 with Some (_, r) => Some (idx r, neg r) | None => None end
   | _ => None
   end.
-
-(* the result is the handle of x1 itself ... *)
-Example pinned_returns_f : pinned_run = Some (2, false).
+Example pinned_ite_returns_f : pinned_ite_run = Some (2, false).      (* the handle of x1 itself *)
 Proof. vm_compute. reflexivity. Qed.
-
-(* ... whereas (F and 0) or (not F and F) is the constant false: the property fails for f = x1, g = 0, h = x1 *)
 Theorem ite_F0F_refuted : exists (F : bfun) (e : env), (if F e then false else F e) <> F e.
 Proof. exists (fun e => e 1), (fun _ => true). cbn. discriminate. Qed.
+(* the repaired model on the same input returns zero *)
+Example repaired_ite_returns_zero :
+  match run_default [HVar 1; HConst false; HIte (0%nat, false) (1%nat, false) (0%nat, false)] with
+  | Some ((_, [_; _; Some r]), _) => r = zero | _ => False end.
+Proof. vm_compute. reflexivity. Qed.
 
-(* the same witness on ite_constant's rule table: the value is the constant false, the pinned code answers None *)
-Theorem itec_F0F_refuted : exists F : bfun, (forall e, (if F e then false else F e) = false) /\ ~ (forall e, F e = false).
-Proof. exists (fun e => e 1). split; [intro e; now destruct (e 1)|]. intro H. specialize (H (fun _ => true)). discriminate. Qed.
-Print Assumptions pinned_returns_f.
+(* ---- C12 (a): ite_constant(x1, 0, x1) answers None at the pinned commit; ITE(x1,0,x1) is the constant false ---- *)
+Definition pinned_itec_a : option (option bool + unit) :=
+  match run_default [HVar 1] with
+  | Some ((m, [Some x1]), _) => @itec_pinned cfg_ops 100 (core m) x1 zero x1
+  | _ => None
+  end.
+Example itec_F0F_refuted : pinned_itec_a = Some (inl None).
+Proof. vm_compute. reflexivity. Qed.
+
+(* ---- C12 (b): after apply_imply(x1 & x2, x1) cached the constant-one result, is_implies(x1 & x2, x1) panics ---- *)
+Definition pinned_itec_b : option (option bool + unit) :=
+  match run_default [HVar 1; HVar 2; HBin BAnd (0%nat, false) (1%nat, false); HBin BImply (2%nat, false) (0%nat, false)] with
+  | Some ((m, [Some x1; _; Some f; _]), _) => @itec_pinned cfg_ops 100 (core m) f x1 one
+  | _ => None
+  end.
+Example itec_cached_terminal_panics : pinned_itec_b = Some (inr tt).
+Proof. vm_compute. reflexivity. Qed.
+
+(* ---- C12 (c): ite_constant(x1 | x2, ~x1 & x2, ~x1) answers Some(false) for a function that is not constant ---- *)
+Definition pinned_itec_c : option (option bool + unit) :=
+  match run_default [HVar 1; HVar 2; HBin BOr (0%nat, false) (1%nat, false); HBin BAnd (0%nat, true) (1%nat, false)] with
+  | Some ((m, [Some x1; _; Some f; Some g]), _) => @itec_pinned cfg_ops 100 (core m) f g (rneg x1)
+  | _ => None
+  end.
+Example itec_wrong_false : pinned_itec_c = Some (inl (Some false)).
+Proof. vm_compute. reflexivity. Qed.
+(* ITE(x1|x2, ~x1&x2, ~x1) is not constant: it is true at x1=0,x2=0 ... wait: f=0 there, so h = ~x1 = 1; and false at x1=1 *)
+Theorem itec_c_not_constant :
+  let F := fun e : env => if (e 1 || e 2) then (negb (e 1) && e 2) else negb (e 1) in
+  F (fun _ => false) = true /\ F (fun _ => true) = false.
+Proof. cbn. split; reflexivity. Qed.
+(* the repaired model answers correctly on all three *)
+Example repaired_itec_ok :
+  match run_default [HVar 1; HVar 2; HConst false; HBin BOr (0%nat, false) (1%nat, false); HBin BAnd (0%nat, true) (1%nat, false);
+                     HBin BAnd (0%nat, false) (1%nat, false); HBin BImply (5%nat, false) (0%nat, false);
+                     HItec (0%nat, false) (2%nat, false) (0%nat, false);
+                     HImplies (5%nat, false) (0%nat, false);
+                     HItec (3%nat, false) (4%nat, false) (0%nat, true)] with
+  | Some (_, outs) => skipn 7 outs = [OOptBool (Some false); OBool true; OOptBool None]
+  | None => False
+  end.
+Proof. vm_compute. reflexivity. Qed.
+Print Assumptions itec_cached_terminal_panics.
